@@ -180,6 +180,8 @@ def build_kwargs(problem, cfg, trace, hooks=None, checkpoint=None, x0=None):
         v = P.g(xr)
         if sc != 1.0:
             v = v * sc
+        if cfg.get("grad_dtype"):
+            v = v.astype(cfg["grad_dtype"])  # the user's gradient code works in (returns) another floating-point precision
         trace.evals.append(("g", xr, v.copy()))
         if cfg.get("reuse_grad_buffer") and not hostile:
             # a user who writes every gradient into one preallocated work array and returns that array each time
